@@ -78,13 +78,16 @@ def build(D, res="main", mc=1):
         xs[k] = xn(mk(), debug=D["kind"][k - 1] == "debug", setup=D["kind"][k - 1] == "setup",
                    resource=resource, tag=tuple(tags) if tags else None)
     lines = []
+    sa = D.get("setuparg", 0)       # a setup node that takes an argument of the DAG: must be refused when the DAG is built
     for k in range(1, D["n"] + 1):
         parts = [f"v{d}" for d in D["deps"][k - 1]]
         if D["const"][k - 1]:
             parts.append("7")
+        if sa == k:
+            parts.append("p")
         lines.append(f"    v{k} = X[{k}]({', '.join(parts)})")
     ret = ", ".join(f"v{k}" for k in range(1, D["n"] + 1))
-    src = "def describe():\n" + "\n".join(lines) + f"\n    return ({ret},)\n"
+    src = f"def describe({'p=1' if sa else ''}):\n" + "\n".join(lines) + f"\n    return ({ret},)\n"
     env = {"X": xs}
     exec(compile(src, "<e3>", "exec"), env)  # noqa: S102
     d = dag(env["describe"], max_concurrency=mc)
@@ -196,14 +199,14 @@ def selections(D, rng, limit):
 def run_dag(D, rng, limit, forms=("id", "ref", "tag", "grp")):
     """All observations for one DAG description; returns the JSON record for SelCheck."""
     rec = {"n": D["n"], "deps": D["deps"], "kind": D["kind"], "const": D["const"], "tags": D.get("tags", {}),
-           "obs": [], "built": True}
+           "obs": [], "built": True, "setuparg": D.get("setuparg", 0)}
     try:
         base, ids, xs = build(D, res=D.get("res", "main"), mc=D.get("mc", 1))
     except BaseException as exc:  # noqa: BLE001
         rec["built"] = False
         rec["build_error"] = repr(exc)[:200]
         return rec
-    if not legal(D):
+    if not legal(D) or D.get("setuparg"):
         return rec
     setup_nodes = [k for k in range(1, D["n"] + 1) if D["kind"][k - 1] == "setup"]
     sels = selections(D, rng, limit)
@@ -254,6 +257,9 @@ def dag_space(n, rng, const_mode="sample", with_illegal=True):
                 if rng.random() < 0.15:
                     D2["res"], D2["mc"] = "thread", 2
                 out.append(D2)
+                setups = [k for k in range(1, n + 1) if kinds[k - 1] == "setup"]
+                if setups and legal(D2) and rng.random() < 0.3:
+                    out.append(dict(D2, setuparg=rng.choice(setups)))
     return out
 
 
